@@ -39,7 +39,7 @@ func Spec() *mon.Spec {
 	return &mon.Spec{
 		ID:    "C17",
 		Level: "exploration",
-		Rule: "built with -race and the verif hooks; every case runs in a child process (a crash identifies its case). All 16 set/unset combinations of OnServeFunc/OnErrorFunc/OnAcceptConnFunc/OnCloseConnFunc x PRNG schedules of K<=12 clients {connect, get rejected by the accept callback, send 1..3 lock-step requests, idle, disconnect or stay} x handler duration {0, yield, 1-5 ms} x terminal action {Shutdown at a PRNG logical point, Shutdown while a handler is running, context cancel, both} x PRNG delays at the four verif yield points (off in one third of the cases); server.Server.Serve on an in-memory listener whose connections record every server-side Read/Write/Close, all stamped from one logical clock shared with the callbacks and the handler. " +
+		Rule: "built with -race and the verif hooks; every case runs in a child process (a crash identifies its case). All 16 set/unset combinations of OnServeFunc/OnErrorFunc/OnAcceptConnFunc/OnCloseConnFunc x PRNG schedules of K<=12 clients {connect, get rejected by the accept callback, send 1..3 lock-step requests, idle, disconnect or stay} x handler duration {0, yield, 1-5 ms} x terminal action {Shutdown at a PRNG logical point, Shutdown while a handler is running, Shutdown right after a handler returned (reply being written, with a transport-level delay before the write), context cancel, both} x PRNG delays at the four verif yield points (off in one third of the cases); server.Server.Serve on an in-memory listener whose connections record every server-side Read/Write/Close, all stamped from one logical clock shared with the callbacks and the handler. " +
 			"Oracles: no crash, no race report; accept callback count within [A+1-S, A+1-C] (A = connections accepted and tracked before, exact because the accept loop is sequential; S = of those, server-side Close seen before the callback; C = close callbacks begun before Accept returned); rejected connection: server-side Close and client EOF; close callback exactly once per accepted connection, never for rejected ones; Shutdown()==nil => Serve returned ErrServerClosed, new dial fails, every connection closed by the server, every request whose handler started before Shutdown was called got its complete reply (started between call and return: own class inflight-toctou); cancel => Serve returns without needing another connection (state witness: returned only after a kick connection); at quiescence VerifConnAccounting()==(0,0). distinct key=(mask, terminal, yield, schedule hash).",
 		Assumptions:  []string{"waits (2-3 s) only bound how long the monitor looks for an event the oracle requires; a missing event is reported with the state witness (what was and was not observed), never from the clock alone"},
 		NewCase:      func() any { return &Case{} },
@@ -58,7 +58,7 @@ func gen(g *mon.Gen) {
 	per := g.Pick(6, 90)
 	for mask := 0; mask < 16; mask++ {
 		for i := 0; i < per; i++ {
-			g.Emit(&Case{Mask: mask, Seed: rng.Int63(), K: 1 + rng.Intn(12), Terminal: []string{"shutdown", "shutdown-inflight", "cancel", "both", "shutdown", "shutdown-inflight"}[i%6], Yield: i%3 != 2, HDelay: rng.Intn(3)})
+			g.Emit(&Case{Mask: mask, Seed: rng.Int63(), K: 1 + rng.Intn(12), Terminal: []string{"shutdown", "shutdown-inflight", "cancel", "both", "shutdown-replying", "shutdown-inflight"}[i%6], Yield: i%3 != 2, HDelay: rng.Intn(3)})
 		}
 	}
 }
@@ -99,12 +99,13 @@ type scenario struct {
 	rejected map[string]bool
 	done     atomic.Int64
 	inflight chan struct{}
+	hdone    chan struct{}
 }
 
 func run(ci any, r *mon.Rec) {
 	c := ci.(*Case)
 	rng := rand.New(rand.NewSource(c.Seed))
-	sc := &scenario{c: c, r: r, l: srvx.NewMemListener(), hstart: map[uint16]int64{}, hend: map[uint16]int64{}, rejected: map[string]bool{}, inflight: make(chan struct{}, 64)}
+	sc := &scenario{c: c, r: r, l: srvx.NewMemListener(), hstart: map[uint16]int64{}, hend: map[uint16]int64{}, rejected: map[string]bool{}, inflight: make(chan struct{}, 64), hdone: make(chan struct{}, 64)}
 	sc.clk = sc.l.Clk
 	a := mon.Attrs{"mask": c.Mask, "terminal": c.Terminal}
 	ctxs := fmt.Sprintf("callbacks{serve:%v error:%v accept:%v close:%v} %d clients terminal=%s yield=%v handler-delay=%d", c.Mask&1 != 0, c.Mask&2 != 0, c.Mask&4 != 0, c.Mask&8 != 0, c.K, c.Terminal, c.Yield, c.HDelay)
@@ -160,6 +161,7 @@ func run(ci any, r *mon.Rec) {
 			}
 		}
 		server.VerifYield.Store(&f)
+		sc.l.ConnYield = f
 	} else {
 		server.VerifYield.Store(nil)
 	}
@@ -191,6 +193,10 @@ func run(ci any, r *mon.Rec) {
 		sc.mu.Lock()
 		sc.hend[tid] = en
 		sc.mu.Unlock()
+		select {
+		case sc.hdone <- struct{}{}:
+		default:
+		}
 		return resp, err
 	})
 
@@ -307,6 +313,12 @@ func run(ci any, r *mon.Rec) {
 		case <-sc.inflight:
 		case <-time.After(1500 * time.Millisecond):
 		}
+	} else if c.Terminal == "shutdown-replying" {
+		// a handler has just returned: its reply is being written (or about to be)
+		select {
+		case <-sc.hdone:
+		case <-time.After(1500 * time.Millisecond):
+		}
 	} else {
 		for sc.done.Load() < trigger && time.Now().Before(waitUntil) {
 			time.Sleep(200 * time.Microsecond)
@@ -398,14 +410,22 @@ func run(ci any, r *mon.Rec) {
 
 	// ---- quiescence: every accepted connection cleaned up ----
 	accepted := map[string]*srvx.RecConn{}
+	var lateConns []*srvx.RecConn
 	sc.l.Conns = append([]*srvx.RecConn(nil), sc.l.Conns...)
 	for _, rc := range sc.l.Conns {
 		if rc.AcceptSeq.Load() == 0 {
 			continue
 		}
-		if !sc.rejected[rc.RemoteAddr().String()] {
-			accepted[rc.RemoteAddr().String()] = rc
+		if sc.rejected[rc.RemoteAddr().String()] {
+			continue
 		}
+		// a connection the listener handed out after the serve context was cancelled is dropped by the stopping server
+		// (closed, never served): it must not leak, but it is not an "accepted connection" in the sense of the callbacks
+		if cancelStamp > 0 && rc.AcceptSeq.Load() > cancelStamp {
+			lateConns = append(lateConns, rc)
+			continue
+		}
+		accepted[rc.RemoteAddr().String()] = rc
 	}
 	deadline := time.Now().Add(3 * time.Second)
 	for time.Now().Before(deadline) {
@@ -426,6 +446,11 @@ func run(ci any, r *mon.Rec) {
 		for name, rc := range accepted {
 			if rc.ServerCloses() == 0 {
 				r.Violate(c, "connection-never-closed", a, fmt.Sprintf("%s: %s was accepted but the server never closed it", ctxs, name))
+			}
+		}
+		for _, rc := range lateConns {
+			if rc.ServerCloses() == 0 {
+				r.Violate(c, "connection-never-closed", a, fmt.Sprintf("%s: %s was handed out by the listener after the context was cancelled and the server never closed it", ctxs, rc.RemoteAddr()))
 			}
 		}
 	}
